@@ -89,6 +89,8 @@ func Class(s oracle.Seg) string {
 			return "cube-collinear"
 		case s.P0 == s.P1:
 			return "cube-closed"
+		case HasCusp(s):
+			return "cube-cusp"
 		case s.P0 == s.C1 || s.C2 == s.P1:
 			return "cube-coincident-control"
 		}
@@ -209,3 +211,40 @@ func abs(v float64) float64 {
 
 // ArcShortcutClass is the violation class used for inputs with ArcChordEqualsRx.
 const ArcShortcutClass = "arc-chord-equals-rx-treated-as-half-ellipse"
+
+// HasCusp reports whether a cubic has an interior parameter with B'(t) = 0 (a cusp): a common
+// root of x'(t) and y'(t) in (0,1), decided with a relative tolerance on the input only.
+func HasCusp(s oracle.Seg) bool {
+	if s.Kind != oracle.CmdCube {
+		return false
+	}
+	co := func(p0, c1, c2, p1 float64) (a, b, c float64) {
+		return -p0 + 3*c1 - 3*c2 + p1, 2 * (p0 - 2*c1 + c2), c1 - p0
+	}
+	ax, bx, cx := co(s.P0.X, s.C1.X, s.C2.X, s.P1.X)
+	ay, by, cy := co(s.P0.Y, s.C1.Y, s.C2.Y, s.P1.Y)
+	m := 0.0
+	for _, v := range []float64{ax, bx, cx, ay, by, cy} {
+		m = math.Max(m, math.Abs(v))
+	}
+	if m == 0 {
+		return false
+	}
+	for i := 1; i < 4096; i++ {
+		t := float64(i) / 4096
+		dx, dy := (ax*t+bx)*t+cx, (ay*t+by)*t+cy
+		if math.Hypot(dx, dy) <= 1e-3*m {
+			// refine: Newton on |B'|^2 is overkill; a local scan is enough for lattice inputs
+			best := math.Inf(1)
+			for k := -2048; k <= 2048; k++ {
+				u := t + float64(k)/(4096*2048)
+				ex, ey := (ax*u+bx)*u+cx, (ay*u+by)*u+cy
+				best = math.Min(best, math.Hypot(ex, ey))
+			}
+			if best <= 1e-6*m {
+				return true
+			}
+		}
+	}
+	return false
+}
